@@ -80,7 +80,7 @@ PROPS = {
         lean_props="Receptor.Props.C16",
         engines=[dict(engine="unreach", pkg=NETC, test="TestVerifUnreach", n_quick=150, n_thorough=1500),
                  dict(engine="pkt", pkg=NETC, test="TestVerifPkt", n_quick=300, n_thorough=3000)],
-        corr_ops={"unreach": ["deliver"], "pkt": ["handle", "walk"]},
+        corr_ops={"unreach": ["deliver", "churn"], "pkt": ["handle", "walk"]},
         facts=["unreach_unknown_branch", "unreach_socket_filter", "unreach_dial_cancel", "unreach_notice_fields", "unreach_sent_from"],
         trusted=["utils.Broker delivers every published notice to every subscriber in publication order (modelled as such)",
                  "QUIC handshake time-out (15 s) vs notice latency is measured by the mesh engine, not proved"],
